@@ -985,8 +985,12 @@ func c11E2E(c *Ctx, pats []c11Pat) error {
 	var inputs []interface{}
 	check := func(site string, p c11Pat, re *regexp.Regexp, in string, got bool, direct func() bool) {
 		want := re.MatchString(in)
-		res.Count("e2e", site+"\x00"+p.src+"\x00"+in, true)
-		res.Dist("e2e:" + site)
+		class := "" // Text.Matches[<capture class>]: the predicate on a capture of that class
+		if i := strings.IndexByte(site, '['); i >= 0 {
+			site, class = site[:i], site[i:]
+		}
+		res.Count("e2e", site+class+"\x00"+p.src+"\x00"+in, true)
+		res.Dist("e2e:" + site + class)
 		if site == "Text.Matches" {
 			// model: the filter is textmatch.Compile(p).Match(node text)
 			tree := "err"
@@ -1000,17 +1004,17 @@ func c11E2E(c *Ctx, pats []c11Pat) error {
 				pre = "regexp "
 			}
 			impl = append(impl, pre+b+" "+b)
-			inputs = append(inputs, map[string]interface{}{"site": site, "pattern": p.src, "input": in})
+			inputs = append(inputs, map[string]interface{}{"site": site + class, "pattern": p.src, "input": in})
 		}
 		if got != want {
-			sig := "e2e:" + site + ":differs-from-regexp"
+			sig := "e2e:" + site + class + ":differs-from-regexp"
 			if site == "Text.Matches" && direct() == got {
 				st, _ := syntax.Parse(p.src, syntax.Perl)
 				sig = "compileOptimized:" + c11Cause(st) // same root cause as the direct observation
 			}
 			res.Violate(hx.Violation{Signature: sig, What: site + " through Engine.Run differs from regexp.MustCompile(p).MatchString",
-				Input: map[string]interface{}{"pattern": p.src, "input": in, "site": site}, Impl: c11B(got), Spec: "regexp: " + c11B(want)})
-			res.Dist("e2e:violation:" + site)
+				Input: map[string]interface{}{"pattern": p.src, "input": in, "site": site + class}, Impl: c11B(got), Spec: "regexp: " + c11B(want)})
+			res.Dist("e2e:violation:" + site + class)
 		}
 	}
 	for cl := range lineOf {
@@ -1032,6 +1036,9 @@ func c11E2E(c *Ctx, pats []c11Pat) error {
 			pat, err := textmatch.Compile(p.src)
 			return err == nil && pat.Match([]byte(in))
 		})
+	}
+	if err := c11E2ECaptures(c, pats, check); err != nil {
+		return err
 	}
 	if err := c11Compare(c, "e2e", ops, impl, inputs); err != nil {
 		return err
@@ -1183,4 +1190,273 @@ func c11Target(filename, pkgPath, src string) (*hx.Target, error) {
 		return nil, err
 	}
 	return &hx.Target{Fset: fset, File: f, Info: info, Pkg: pkg, Src: []byte(src), Name: filename}, nil
+}
+
+// ---------------------------------------------------------------- Text.Matches on every class of capture
+
+// c11CapShape: one way a rule variable gets its text.  `find` enumerates, from the parsed target alone, the
+// nodes the rule pattern matches and the nodes bound to the variable there; the text the predicate is about is
+// the source text spanned by those nodes ("" when the variable is bound to nothing: `$*xs` that matched no
+// node, an absent result list).
+type c11CapShape struct {
+	name    string // capture class
+	pattern string
+	varname string
+	negate  bool // the rule uses !Text.Matches
+	find    func(f *ast.File) []c11CapSite
+}
+
+type c11CapSite struct {
+	at    ast.Node   // the node the rule reports
+	nodes []ast.Node // what the variable is bound to
+}
+
+func c11CallSites(fun string, skip int) func(f *ast.File) []c11CapSite {
+	return func(f *ast.File) []c11CapSite {
+		var out []c11CapSite
+		ast.Inspect(f, func(n ast.Node) bool {
+			if call, ok := n.(*ast.CallExpr); ok {
+				if id, ok := call.Fun.(*ast.Ident); ok && id.Name == fun && len(call.Args) >= skip {
+					s := c11CapSite{at: call}
+					for _, a := range call.Args[skip:] {
+						s.nodes = append(s.nodes, a)
+					}
+					out = append(out, s)
+				}
+			}
+			return true
+		})
+		return out
+	}
+}
+
+var c11CapShapes = []c11CapShape{
+	{"call-args:$*xs", "ca($*xs)", "xs", false, c11CallSites("ca", 0)},
+	{"call-args:$*xs:negated", "cn($*xs)", "xs", true, c11CallSites("cn", 0)},
+	{"call-args-tail:$*xs", "ct($_, $*xs)", "xs", false, c11CallSites("ct", 1)},
+	{"call-arg:$x", "cx($x)", "x", false, c11CallSites("cx", 0)},
+	{"return-values:$*xs", "return $*xs", "xs", false, func(f *ast.File) []c11CapSite {
+		var out []c11CapSite
+		ast.Inspect(f, func(n ast.Node) bool {
+			if r, ok := n.(*ast.ReturnStmt); ok {
+				s := c11CapSite{at: r}
+				for _, x := range r.Results {
+					s.nodes = append(s.nodes, x)
+				}
+				out = append(out, s)
+			}
+			return true
+		})
+		return out
+	}},
+	{"block-statements:$*xs", "if mark { $*xs }", "xs", false, func(f *ast.File) []c11CapSite {
+		var out []c11CapSite
+		ast.Inspect(f, func(n ast.Node) bool {
+			if st, ok := n.(*ast.IfStmt); ok && st.Init == nil && st.Else == nil {
+				if id, ok := st.Cond.(*ast.Ident); ok && id.Name == "mark" {
+					s := c11CapSite{at: st}
+					for _, x := range st.Body.List {
+						s.nodes = append(s.nodes, x)
+					}
+					out = append(out, s)
+				}
+			}
+			return true
+		})
+		return out
+	}},
+	{"literal-elements:$*xs", "[]int{$*xs}", "xs", false, func(f *ast.File) []c11CapSite {
+		var out []c11CapSite
+		ast.Inspect(f, func(n ast.Node) bool {
+			if cl, ok := n.(*ast.CompositeLit); ok {
+				if at, ok := cl.Type.(*ast.ArrayType); ok && at.Len == nil {
+					if id, ok := at.Elt.(*ast.Ident); ok && id.Name == "int" {
+						s := c11CapSite{at: cl}
+						for _, x := range cl.Elts {
+							s.nodes = append(s.nodes, x)
+						}
+						out = append(out, s)
+					}
+				}
+			}
+			return true
+		})
+		return out
+	}},
+	{"result-list:$x", "func $_() $x { $*_ }", "x", false, func(f *ast.File) []c11CapSite {
+		var out []c11CapSite
+		for _, d := range f.Decls {
+			fd, ok := d.(*ast.FuncDecl)
+			if !ok || fd.Recv != nil || fd.Body == nil || fd.Type.TypeParams != nil || len(fd.Type.Params.List) != 0 {
+				continue
+			}
+			s := c11CapSite{at: fd}
+			if fd.Type.Results != nil {
+				s.nodes = []ast.Node{fd.Type.Results}
+			}
+			out = append(out, s)
+		}
+		return out
+	}},
+}
+
+// argument lists / statement lists / result lists of the capture sites: every shape gets the empty one, one
+// element, several elements, multi-line spans, texts that the must-have patterns below do and do not match
+var c11CapArgLists = []string{"", "1", "1, 2", "10, 20, 3", "nil", "foo", "foo, 1", "x", "foo.x", `"foo"`, `""`, "1,\n\t\t2", "-1", "Foo, FOO", `"a b", 'k'`, "é", "x + 1", "(1)", "nil, nil"}
+var c11CapStmtLists = []string{"", "x++", "x = 1", "x++\n\t\tx--", "_ = foo", "ca()", "return", "{\n\t\t}", "x = 1; x = 2", "var _ = 1"}
+var c11CapResults = []struct{ res, ret string }{{"", ""}, {"int", "1"}, {"(int, error)", "1, nil"}, {"(n int)", "n"}, {"T", "foo"}, {"[]int", "nil"}, {"(a, b int)", "a, b"}, {"func() int", "nil"}}
+
+// patterns every run uses: half of them match the empty text, half do not
+var c11CapPatterns = []string{"^$", "x*", "^[0-9, ]*$", "(?s).*", `^\s*$`, "^(nil)?$", ".*", "$", "^", `\A\z`, "a|", "(?m)^$", "[^a]*", ".?", "(?i)^$", "()", `\z`,
+	"^1", ".", ".+", "x", `^\S`, `\b`, "foo", "^foo$", "[0-9]", "nil", `^\d+(, \d+)*$`, "(?i)FOO", `\n`, "^.$", `\w`, `^[^,]*$`, "1$", `^"`}
+
+func c11E2ECaptures(c *Ctx, pats []c11Pat, check func(site string, p c11Pat, re *regexp.Regexp, in string, got bool, direct func() bool)) error {
+	res := c.Res
+	// target: one capture site per line and shape
+	var src strings.Builder
+	src.WriteString("package p\n\ntype T struct{ x int }\n\nvar (\n\tfoo T\n\tFoo, FOO, x, é int\n\tmark bool\n)\n\n")
+	src.WriteString("func ca(...interface{}) {}\nfunc cn(...interface{}) {}\nfunc ct(...interface{}) {}\nfunc cx(interface{}) {}\n\n")
+	src.WriteString("func calls() {\n")
+	for _, a := range c11CapArgLists {
+		fmt.Fprintf(&src, "\tca(%s)\n\tcn(%s)\n", a, a)
+		if a == "" {
+			src.WriteString("\tct(0)\n")
+		} else {
+			fmt.Fprintf(&src, "\tct(0, %s)\n", a)
+			if !strings.Contains(a, ",") {
+				fmt.Fprintf(&src, "\tcx(%s)\n", a)
+			}
+		}
+		fmt.Fprintf(&src, "\t_ = []int{%s}\n", map[bool]string{true: a, false: ""}[c11IntList(a)])
+	}
+	src.WriteString("}\n\nfunc blocks() {\n")
+	for _, st := range c11CapStmtLists {
+		if st == "" {
+			src.WriteString("\tif mark {\n\t}\n\tif mark {}\n")
+		} else {
+			fmt.Fprintf(&src, "\tif mark {\n\t\t%s\n\t}\n", st)
+		}
+	}
+	src.WriteString("}\n\n")
+	for i, r := range c11CapResults {
+		fmt.Fprintf(&src, "func res%d() %s {\n\treturn %s\n}\n\n", i, r.res, r.ret)
+	}
+	src.WriteString("func resLit() {\n\t_ = func() { return }\n\t_ = func() (int, string) {\n\t\treturn 1,\n\t\t\t\"s\"\n\t}\n}\n")
+	t, err := hx.ParseTarget("c11_captures.go", src.String())
+	if err != nil {
+		return fmt.Errorf("c11 capture target: %v\n%s", err, src.String())
+	}
+	type site struct {
+		line int
+		text string
+	}
+	sites := make([][]site, len(c11CapShapes))
+	lineOf := make([]map[int]int, len(c11CapShapes))
+	for si, sh := range c11CapShapes {
+		lineOf[si] = map[int]int{}
+		for _, cs := range sh.find(t.File) {
+			text := ""
+			if len(cs.nodes) > 0 {
+				text = string(t.Src[t.Fset.Position(cs.nodes[0].Pos()).Offset:t.Fset.Position(cs.nodes[len(cs.nodes)-1].End()).Offset])
+			}
+			line := t.Fset.Position(cs.at.Pos()).Line
+			if _, dup := lineOf[si][line]; dup {
+				return fmt.Errorf("c11 capture target: two %s sites on line %d", sh.name, line)
+			}
+			lineOf[si][line] = len(sites[si])
+			sites[si] = append(sites[si], site{line, text})
+		}
+		if len(sites[si]) < 3 {
+			return fmt.Errorf("c11 capture target: %d sites for %s", len(sites[si]), sh.name)
+		}
+	}
+	// patterns: the must-have list, then generated ones
+	nGen := 25
+	if c.Thorough {
+		nGen = 300
+	}
+	var use []c11Pat
+	seen := map[string]bool{}
+	for _, p := range c11CapPatterns {
+		seen[p] = true
+		use = append(use, c11Pat{src: p, kind: "capture-fixed"})
+	}
+	for _, p := range pats {
+		if nGen == 0 {
+			break
+		}
+		if _, err := regexp.Compile(p.src); err != nil || p.src == "" || seen[p.src] || !utf8.ValidString(p.src) {
+			continue
+		}
+		seen[p.src] = true
+		use = append(use, p)
+		nGen--
+	}
+	for _, p := range use {
+		re := regexp.MustCompile(p.src)
+		var rules strings.Builder
+		q := strconv.Quote(p.src)
+		for si, sh := range c11CapShapes {
+			neg := ""
+			if sh.negate {
+				neg = "!"
+			}
+			fmt.Fprintf(&rules, "func r%d(m dsl.Matcher) { m.Match(`%s`).Where(%sm[%q].Text.Matches(%s)).Report(\"%d\") }\n", si, sh.pattern, neg, sh.varname, q, si)
+		}
+		e, err := hx.LoadRules(hx.RulesFile(rules.String()))
+		if err != nil {
+			return fmt.Errorf("c11 capture rules for %q: %v", p.src, err)
+		}
+		reports, pk, frame, err := hx.Run(e, t, hx.RunOpts{})
+		if err != nil {
+			return fmt.Errorf("c11 capture run: %v", err)
+		}
+		if pk != "" {
+			res.Violate(hx.Violation{Signature: "e2e:Text.Matches:" + pk + "@" + frame, What: "Run panics in a rule with Text.Matches",
+				Input: map[string]interface{}{"pattern": p.src, "rules": rules.String()}, Impl: pk + " at " + frame, Spec: "regexp: no panic"})
+			continue
+		}
+		hit := make([]map[int]bool, len(c11CapShapes))
+		for i := range hit {
+			hit[i] = map[int]bool{}
+		}
+		for _, rep := range reports {
+			si, err := strconv.Atoi(rep.Message)
+			if err != nil || si < 0 || si >= len(c11CapShapes) {
+				res.Errorf("c11 captures: unexpected report %v", rep)
+				continue
+			}
+			k, ok := lineOf[si][rep.Line]
+			if !ok {
+				res.Errorf("c11 captures: %s reported at line %d, which is not one of its sites (pattern %q)", c11CapShapes[si].name, rep.Line, p.src)
+				continue
+			}
+			hit[si][k] = true
+		}
+		for si, sh := range c11CapShapes {
+			for k, s := range sites[si] {
+				accepted := hit[si][k] != sh.negate // the predicate's own verdict
+				class := "nonempty-text"
+				if s.text == "" {
+					class = "empty-text"
+				}
+				p, text := p, s.text
+				check("Text.Matches["+sh.name+":"+class+"]", p, re, text, accepted, func() bool {
+					pat, err := textmatch.Compile(p.src)
+					return err == nil && pat.Match([]byte(text))
+				})
+			}
+		}
+	}
+	res.Dist("e2e:capture-patterns")
+	return nil
+}
+
+// c11IntList: the text is a list of int-typed expressions of the capture target
+func c11IntList(a string) bool {
+	switch a {
+	case "", "1", "1, 2", "10, 20, 3", "x", "foo.x", "1,\n\t\t2", "-1", "Foo, FOO", "é", "(1)", "x + 1":
+		return true
+	}
+	return false
 }
